@@ -117,7 +117,9 @@ def case_st(draw, with_fault=True):
             "through": draw(st.sampled_from(["handler", "handler", "protocol"])),
             "ccert": draw(st.sampled_from([None, None, None, "ec-a", "ed-a"])),
             # protocol path only: a middleware chain in front of the upload handler and its verdict
-            "chain": draw(st.sampled_from([None, None, "allow", "deny", "deny-none", "raise"]))}
+            "chain": draw(st.sampled_from([None, None, "allow", "deny", "deny-none", "raise"])),
+            # protocol path only: the peer ends the stream (FIN / close_notify) after half of the declared content
+            "ending": draw(st.sampled_from(["complete", "complete", "complete", "eof-short"]))}
 
 
 def make_handler(cfg, updir):
@@ -185,6 +187,8 @@ def run_case(case: dict):
         raised = None
         fault_info = {}
 
+        short = case["through"] == "protocol" and case.get("ending") == "eof-short" and req["size"] >= 1 and len(content) >= 1
+
         def call():
             nonlocal status, raised
             if case["through"] == "protocol":
@@ -203,7 +207,11 @@ def run_case(case: dict):
                     tr.attach(proto)
                     data = line.encode() + b"\r\n" + content + b"EXTRA-BYTES-BEYOND-SIZE"
                     mode = (len(content) + len(line)) % 3
-                    if mode == 0:
+                    if short:
+                        tr.feed(line.encode() + b"\r\n" + content[: min(len(content), req["size"]) // 2])
+                        await vloop.settle(5)
+                        tr.peer_disconnect(None)  # graceful end of stream; eof_received() is consulted as asyncio does
+                    elif mode == 0:
                         tr.feed(data)  # request line, content and surplus bytes in one read
                     else:
                         cut = len(line) + 2 + (len(content) // 2 if mode == 1 else len(content))
@@ -253,6 +261,7 @@ def run_case(case: dict):
             "mime": cfg["types"] is None or ("text/gemini" if req["mime"] is None else req["mime"].strip()) in cfg["types"],
             "delete": req["size"] != 0 or cfg["delete"],
             "chain": not (case["through"] == "protocol" and case.get("chain") in ("deny", "deny-none", "raise")),
+            "entire": not short,  # "exactly as sent": an upload that stopped short of its declared size is not carried out
         }
         info["pre"] = "".join(k[0] if v else "-" for k, v in pre.items())
         if gone_dirs:
